@@ -86,6 +86,21 @@ InfoOK(i, rs) ==
       [] i.m = "unknowntype" -> Len(g) = 1 /\ g[1].k = "unhandled" /\ g[1].ty = i.ty
       [] OTHER -> Len(g) = 0
 
+\* how the optional play arguments are surfaced (RTMP 7.2.2.1: start -2 live or recorded (default), -1 live only, >= 0 a position;
+\* duration >= 0 or absent; reset flag), for the argument shapes the driver sends
+PlayStartOf(a) == IF a = <<>> \/ a[1].k # "num" THEN [k |-> "LiveOrRecorded", v |-> 0]
+                  ELSE IF a[1].v = -1 THEN [k |-> "LiveOnly", v |-> 0]
+                  ELSE IF a[1].v >= 0 THEN [k |-> "At", v |-> a[1].v]
+                  ELSE [k |-> "LiveOrRecorded", v |-> 0]
+PlayDurOf(a)   == IF a # <<>> /\ a[1].k = "num" /\ a[1].v >= 0 THEN <<a[1].v>> ELSE <<>>
+PlayResetOf(a) == a # <<>> /\ a[1].k = "bool" /\ a[1].v
+PlayArgsOK(i, rs) ==
+    LET S == SelectSeq(rs, LAMBDA x : x.k = "event" /\ x.o = "PlayStreamRequested") IN
+    (Len(S) = 1 /\ "pargs" \in DOMAIN i) =>
+        /\ S[1].start = PlayStartOf(i.pargs.start)
+        /\ S[1].dur = PlayDurOf(i.pargs.dur)
+        /\ S[1].reset = PlayResetOf(i.pargs.reset)
+
 \* control messages carry the session uptime (the clock hook makes it known); media carries the caller's timestamp
 ClockOK(outs, clk) == \A k \in 1 .. Len(outs) :
     outs[k].msg.k \in {"Audio", "Video", "SetChunkSize", "Undecodable"} \/ outs[k].ts = clk
@@ -211,6 +226,7 @@ DoStep ==
             /\ IF verdictSrv = "" /\ ~ProbeOK(Ev.probe, r.st) THEN Say("PROBE", "session state differs from the model after " \o i0.m) ELSE TRUE
             /\ IF verdictSrv = "" /\ ~ClockOK(rs2, Ev.clk) THEN Say("SHAPE", "a control message does not carry the session uptime (" \o i0.m \o ")") ELSE TRUE
             /\ IF verdictSrv = "" /\ Ev.res = "ok" /\ ~InfoOK(i0, rs) THEN Say("SHAPE", "informational results differ from the usual ones (" \o i0.m \o ")") ELSE TRUE
+            /\ IF verdictSrv = "" /\ i0.m = "play" /\ ~PlayArgsOK(i0, rs) THEN Say("SHAPE", "optional play arguments are surfaced differently from the usual reading") ELSE TRUE
             /\ IF verdictSrv = "" /\ i0.m = "accept" /\ ~wantErr /\ Kinds(gotO) # AcceptShape(st.reqs[i0.id].k)
                THEN Say("SHAPE", "acceptance of a " \o st.reqs[i0.id].k \o " request does not consist of the usual messages") ELSE TRUE
     /\ st' = r.st
